@@ -324,6 +324,20 @@ func (p *c19) RunCase(ctx *runner.Ctx) runner.CaseResult {
 			break
 		}
 	}
+	// one of the named tables is deleted: every individual GetItem for its keys now fails with ResourceNotFound,
+	// and so does the batch read as a whole (its decomposition contains a failing call)
+	if len(gets) > 0 && r.Intn(3) == 0 {
+		tn := gets[r.Intn(len(gets))].Table
+		cl.Do(adapt.Op{Kind: adapt.OpDeleteTable, Table: tn})
+		single := cl.Do(adapt.Op{Kind: adapt.OpGet, Table: tn, Key: gets[0].Del})
+		gone := cl.Do(op)
+		x.r.Evals += 3
+		x.r.Counters["batchget_on_deleted_table"]++
+		if single.Class == adapt.ClsNotFound && gone.Class != adapt.ClsNotFound {
+			x.viol("batchget-missing-table", gone.Class, fmt.Sprintf("[%s] BatchGetItem naming table %s after it was deleted: class %s (responses %d tables, unprocessed %d tables); every individual GetItem fails with ResourceNotFound", adapter, tn, gone.Class, len(gone.Resp), len(gone.UnprocK)),
+				map[string]interface{}{"adapter": adapter, "specs": specs, "history": hist, "batchget": op, "deleted_table": tn, "outcome": gone})
+		}
+	}
 	nun := 0
 	for _, ks := range got.UnprocK {
 		nun += len(ks)
